@@ -162,6 +162,7 @@ type Profile struct {
 	Methods            []string
 	MethodW            []int
 	ExtraPm            int
+	KnownChain         bool // requests always use a method their target route has, so the chain they run is known by construction
 }
 
 func pickShape(g *tape.Stream, p *Profile, needCtx bool, haveRender bool) int {
